@@ -431,7 +431,22 @@ package client
 //@ func chan.close(ch int)
 //@   ensures chclosed[ch]
 //@   modifies chclosed[ch]
+//@ ghost resubok bool
+//@ writers Service.ResubscribeAllSubscriptions: NewService
+//@ func (s *Service) resubscribe(client *Client) (ok bool)
+//@   partial
+//@   ghostlocal nothing bool
+//@   at call 1 All bind al
+//@   at call 1 All ghost nothing := len(al_r) == 0
+//@   at call 1 SubscribeMultiple bind sm
+//@   at call 1 Wait bind w
+//@   at exit assert [acknowledged-or-nothing-recorded] ok ==> nothing || (sm && sm_r1 == nil && w && w_r == nil)
+//@   ghostset resubok := ok
+//@   ensures [recorded] resubok == ok
+//@   modifies heap-except(any(Service.ResubscribeAllSubscriptions)), allghosts
+//@   loop 1 invariant [range] 0 <= rangeindex + 1 && rangeindex + 1 <= len(items)
 //@ func (s *Service) supervisor() (err error)
 //@   partial
 //@   at call 1 connect assert [own-kill-channel] !chclosed[kill]
+//@   at call 1 dispatcher assert [resubscribed-before-dispatch] s.ResubscribeAllSubscriptions ==> resubok
 //@   modifies everything
